@@ -289,8 +289,9 @@ func (a *Adapter) create(ctx sdk.Context, obj string) error {
 				return err
 			}
 		}
-		bridger := a.C.BridgerOf[a.C.Oracle[0]]
-		if err := w.Handle(ctx, &types.MsgRequestBatch{ChainName: a.Chain, Sender: a.senderAcc(bridger), Denom: fxtypes.DefaultDenom,
+		// requested by an oracle account (a batch request must come from a bridger or an oracle; bridgers are replaced
+		// by EditBridger, the oracle accounts are not)
+		if err := w.Handle(ctx, &types.MsgRequestBatch{ChainName: a.Chain, Sender: a.oracleAcc(a.C.Oracle[0]).String(), Denom: fxtypes.DefaultDenom,
 			MinimumFee: sdkmath.NewInt(1), FeeReceive: a.addrStr(extAddr20(a.Chain, "feeReceive")), BaseFee: sdkmath.ZeroInt()}); err != nil {
 			return err
 		}
@@ -643,6 +644,21 @@ func (a *Adapter) Apply(ctx sdk.Context, op graph.Op) (sdk.Context, string) {
 			panic(fmt.Sprintf("signing context: required signers %x, model signer %s", signers, signer))
 		}
 		err = w.Handle(ctx, msg)
+	case "EditBridger":
+		// MsgEditBridger.ValidateBasic parses the bridger as a validator address, so the message cannot pass the
+		// router on this tree; the handler is driven directly (atomically), as the repository's own tests do.
+		// Its signer, per the application's signing context, is the oracle.
+		o, s := op.Str("oracle"), op.Str("sender")
+		msg := &types.MsgEditBridger{ChainName: a.Chain, OracleAddress: a.oracleAcc(o).String(), BridgerAddress: a.senderAcc(s)}
+		signers, _, e := w.App.AppCodec().GetMsgV1Signers(msg)
+		must(e)
+		if len(signers) != 1 || !sdk.AccAddress(signers[0]).Equals(a.oracleAcc(o)) {
+			panic(fmt.Sprintf("signing context: required signers %x, model signer oracle %s", signers, o))
+		}
+		err = world.Atomic(ctx, func(c sdk.Context) error {
+			_, e := crosschainkeeper.NewMsgServerImpl(a.K).EditBridger(c, msg)
+			return e
+		})
 	default:
 		panic("unknown op " + op.Name())
 	}
@@ -657,7 +673,7 @@ func (a *Adapter) Apply(ctx sdk.Context, op graph.Op) (sdk.Context, string) {
 
 // ---------------------------------------------------------------- projection
 
-// Project reads prefixes 0x12 (oracles) 0x15 0x20 0x48 (objects) 0x16 0x22 0x45 (confirmations) 0x40 (params) raw.
+// Project reads prefixes 0x12 (oracles) 0x14 (bridger index) 0x15 0x20 0x48 (objects) 0x16 0x22 0x45 (confirmations) 0x40 (params) raw.
 func (a *Adapter) Project(ctx sdk.Context) any {
 	st := ctx.KVStore(a.storeKey)
 	cdc := a.W.App.AppCodec()
@@ -686,6 +702,22 @@ func (a *Adapter) Project(ctx sdk.Context) any {
 				extOf[o] = n
 			} else {
 				extOf[o] = "?" + or.ExternalAddress
+			}
+		}
+	}
+	// bridger index (0x14 ‖ account -> oracle account), read raw for every account of the model
+	oracleName := map[string]string{}
+	for _, o := range a.C.Oracle {
+		oracleName[string(a.oracleAcc(o))] = o
+	}
+	bridgerIdx := map[string]string{}
+	for _, s := range a.C.Sender {
+		bridgerIdx[s] = "none"
+		if bz := st.Get(append([]byte{0x14}, a.acc(a.senderKey(s))...)); bz != nil {
+			if n, ok := oracleName[string(bz)]; ok {
+				bridgerIdx[s] = n
+			} else {
+				bridgerIdx[s] = "?" + hex.EncodeToString(bz)
 			}
 		}
 	}
@@ -769,7 +801,7 @@ func (a *Adapter) Project(ctx sdk.Context) any {
 		}
 		it.Close()
 	}
-	return map[string]any{"stored": stored, "bridgerOf": bridgerOf, "extOf": extOf, "confirms": confirms, "valid": valid, "stray": stray}
+	return map[string]any{"stored": stored, "bridgerOf": bridgerOf, "bridgerIdx": bridgerIdx, "extOf": extOf, "confirms": confirms, "valid": valid, "stray": stray}
 }
 
 // ---------------------------------------------------------------- real-state oracle after every edge
@@ -787,6 +819,9 @@ func (a *Adapter) moduleDump(ctx sdk.Context) map[string]string {
 // AfterEdge: a rejected Confirm leaves the module's complete store byte-identical; an accepted Confirm adds
 // exactly one entry, under one of the three confirmation prefixes, and changes or deletes nothing.
 func (a *Adapter) AfterEdge(post, pre sdk.Context, op graph.Op, res string) error {
+	if op.Name() == "EditBridger" {
+		return a.afterEdit(post, pre, res)
+	}
 	if op.Name() != "Confirm" {
 		return nil
 	}
@@ -811,6 +846,24 @@ func (a *Adapter) AfterEdge(post, pre sdk.Context, op graph.Op, res string) erro
 	}
 	if res == "ok" && added != 1 {
 		return fmt.Errorf("accepted Confirm added %d entries", added)
+	}
+	return nil
+}
+
+// afterEdit: a rejected EditBridger leaves the module's complete store byte-identical; an accepted one touches
+// only oracle records (0x12) and the bridger index (0x14), in particular no confirmation and no object.
+func (a *Adapter) afterEdit(post, pre sdk.Context, res string) error {
+	before, after := a.moduleDump(pre), a.moduleDump(post)
+	bad := func(k string) bool { return res != "ok" || !(k[0] == 0x12 || k[0] == 0x14) }
+	for k, v := range after {
+		if old, had := before[k]; (!had || old != v) && bad(k) {
+			return fmt.Errorf("%s EditBridger wrote key %x", res, k)
+		}
+	}
+	for k := range before {
+		if _, ok := after[k]; !ok && bad(k) {
+			return fmt.Errorf("%s EditBridger deleted key %x", res, k)
+		}
 	}
 	return nil
 }
